@@ -56,13 +56,14 @@ type Inconclusive struct {
 }
 
 type Witness struct {
-	Model     map[string]uint64 `json:"model"`
-	StrModel  map[string]string `json:"str_model,omitempty"`
-	Observed  []string          `json:"observed"`
-	Reached   []string          `json:"reached"`
-	Choices   []int             `json:"choices,omitempty"`
-	Symbolic  bool              `json:"symbolic"`
-	NDChoices int               `json:"nd_choices"` // select / scheduler choices on the path: the native run may legitimately differ
+	Model       map[string]uint64 `json:"model"`
+	StrModel    map[string]string `json:"str_model,omitempty"`
+	Observed    []string          `json:"observed"`
+	Reached     []string          `json:"reached"`
+	Choices     []int             `json:"choices,omitempty"`
+	Symbolic    bool              `json:"symbolic"`
+	NDChoices   int               `json:"nd_choices"`   // select / scheduler choices on the path: the native run may legitimately differ
+	UFDependent bool              `json:"uf_dependent"` // the path used uninterpreted stand-ins for stdlib functions
 }
 
 // PathResult is what one completed path reports back.
@@ -378,6 +379,7 @@ type Machine struct {
 	freshCount      int
 	trimCache       map[*Term]*Term
 	splitCache      map[string][]*Term
+	ufCount         int
 }
 
 type sliceRef struct {
@@ -800,7 +802,7 @@ func (m *Machine) makeWitness() {
 	if model == nil {
 		model = map[string]uint64{}
 	}
-	w := &Witness{Model: model, StrModel: smodel, Choices: append([]int{}, m.choices...), Symbolic: len(m.inputs)+len(m.strInputs) > 0, NDChoices: m.ndChoices}
+	w := &Witness{Model: model, StrModel: smodel, Choices: append([]int{}, m.choices...), Symbolic: len(m.inputs)+len(m.strInputs) > 0, NDChoices: m.ndChoices, UFDependent: m.ufCount > 0}
 	env := model
 	for _, o := range m.observedTerms {
 		w.Observed = append(w.Observed, o.render(env))
